@@ -563,13 +563,13 @@ def gen_cases(ck):
             w.seg(a, b)
         cases.append(case(w, fam="address space", lenient=True))
     # ---- 3. invalid enumerants ------------------------------------------------------------------------
-    for ft in (2, 3, 7):
+    for ft in (2, 3, 4, 5, 6, 7):
         for pos in (0, 1, 2):
             d = Dev(max_ack=128)
             for j in range(3):
                 d.entry(ver32(1, j, 0), doc("i%d" % j, 40), ftype=ft if j == pos else 0)
             cases.append(case(d, fam="invalid enumerants"))
-    for comp in (2, 3, 63):
+    for comp in (2, 3, 4, 32, 62, 63):
         for pos in (0, 1):
             d = Dev(max_ack=128)
             for j in range(2):
